@@ -18,8 +18,8 @@ use zksync_consensus_roles::validator::{self, v2, Block, BlockNumber, Payload};
 
 use crate::engine::SimEngine;
 
-const FIRST_PRE: u64 = 2; // first pre-genesis block that exists
-const FIRST: u64 = 5; // first block of the fork
+const FIRST_PRE: u64 = 0; // first pre-genesis block that exists (0: the empty-store corner of BlockStoreState::head())
+const FIRST: u64 = 3; // first block of the fork
 const LEN: u64 = 260; // chain material covers FIRST_PRE..FIRST_PRE+LEN
 
 #[derive(Debug, Clone, Copy, Serialize, Deserialize, Hash, PartialEq, Eq, PartialOrd, Ord)]
@@ -167,6 +167,16 @@ fn gen_case(ch: &mut Choices) -> Case {
     let n = 3 + ch.below(40);
     let mut ops = vec![];
     let mut frontier = start; // rough notion of where the chain is, to aim operations
+    if ch.chance(1, 8) {
+        // directed phrase: persistence stalls from the very beginning while more blocks than the cache holds are queued,
+        // then everything queued is read back
+        let to = (start + ch.pick(&[99u64, 100, 101, 102, 130])).min(FIRST_PRE + LEN);
+        ops.push(Op::Defer(true));
+        ops.push(Op::QueueRange(start, to, ch.bool()));
+        ops.push(Op::Get(start));
+        ops.push(Op::Get(start + 1));
+        frontier = to;
+    }
     for _ in 0..n {
         let near = |ch: &mut Choices, frontier: u64| (frontier + ch.below(6) as u64).saturating_sub(ch.below(3) as u64).clamp(FIRST_PRE, FIRST_PRE + LEN - 1);
         ops.push(match ch.below(20) {
